@@ -16,6 +16,7 @@ from ..pyfront import ws  # noqa: E402,F401  (whitespace-collapsed, rename/norma
 def run(ctx, L, tier):
     checked_stores(ctx, L)
     limit_guards(ctx, L)
+    fixed_length(ctx, L)
     atomicity(ctx, L)
     P.counter_clause(ctx, L)
     union_gating(ctx, L)
@@ -474,3 +475,51 @@ def check_returns(ctx, L):
                 'another enum type, or any int subclass instance, would be stored although this enum has no such member)',
                 '%s under %s' % (ws(unparse(r)), sorted(P.facts(e, r))))
     L.floor('C10f.check-dominates-return', n, 6)
+
+
+def fixed_length(ctx, L):
+    """A fixed array has exactly its declared number of elements in every reachable state: no method a fixed array class has -
+    its own or inherited from any base in the runtime - may change the length of `_values` (append / insert / extend / remove /
+    pop / clear / delete / slice assignment of another length), unless it is overridden to refuse."""
+    cont = ctx.py.mod('prophy.container')
+    base = ctx.py.mod('prophy.base_array')
+    classes = {}
+    for m in (cont, base):
+        for q, c in m.classes.items():
+            classes[q] = (m, c)
+
+    def mro(q):
+        out = [q]
+        m, c = classes[q]
+        for b in c.bases:
+            bn = unparse(b).split('.')[-1]
+            if bn in classes:
+                out += mro(bn)
+        return out
+    n = 0
+    for q in ('fixed_scalar_array', 'fixed_composite_array'):
+        if q not in classes:
+            raise AnalysisError('anchor vanished: class %s' % q)
+        seen = set()
+        for cq in mro(q):
+            m, c = classes[cq]
+            for st in c.body:
+                if not isinstance(st, ast.FunctionDef) or st.name in seen or st.name == '__init__':
+                    continue
+                seen.add(st.name)              # the first definition along the MRO is the one a fixed array has
+                f = m.func(cq + '.' + st.name)
+                changes = []
+                for x in f.walk():
+                    if isinstance(x, ast.Call) and isinstance(x.func, ast.Attribute) and ws(unparse(x.func.value)) == 'self._values' \
+                            and x.func.attr in ('append', 'insert', 'extend', 'remove', 'pop', 'clear'):
+                        changes.append(x)
+                    elif isinstance(x, ast.Delete) and any('self._values' in unparse(t) for t in x.targets):
+                        changes.append(x)
+                    elif isinstance(x, (ast.AugAssign,)) and ws(unparse(x.target)) == 'self._values':
+                        changes.append(x)
+                n += 1
+                L.check(not changes, 'C10b.fixed-length', '%s.%s' % (q, st.name), f.site(changes[0] if changes else None),
+                        'a %s has the method %s() (defined in %s), which changes the number of elements (`%s`): a fixed array must keep '
+                        'exactly its declared size - afterwards the message encodes to fewer bytes than its static size'
+                        % (q, st.name, cq, ws(unparse(changes[0])) if changes else ''), ws(unparse(changes[0])) if changes else '')
+    L.floor('C10b.fixed-length', n, 10)
